@@ -592,6 +592,109 @@ TOTAL_ORDER_TYPES = ("u8", "u16", "u32", "u64", "u128", "usize", "i8", "i16", "i
                      "std::time::Instant", "tokio::time::Instant")
 
 
+def forward_refs(B):
+    """`r = &mut x` (directly or through moves of single-definition temporaries) with `x` a plain local place: every `(*r)…` reads
+    and writes `x…`.  Binding a reference parameter of a spliced helper leaves such chains behind; after forwarding, `*cut = true`
+    in the helper reads `cut = true` in the caller, like the code the helper was extracted from."""
+    ndefs = {}
+    defs = {}
+    for bi, blk in enumerate(B.blocks):
+        for st in blk["stmts"]:
+            if st.get("rv") is not None and len(st["p"]) == 1:
+                ndefs[st["p"][0]] = ndefs.get(st["p"][0], 0) + 1
+                defs[st["p"][0]] = st["rv"]
+        t = blk["term"]
+        if t is not None and t["k"] == "call" and len(t["dest"]) == 1:
+            ndefs[t["dest"][0]] = ndefs.get(t["dest"][0], 0) + 2
+        if t is not None and t["k"] == "yield" and len(t.get("resume_arg") or ()) == 1:
+            ndefs[t["resume_arg"][0]] = ndefs.get(t["resume_arg"][0], 0) + 2
+    target = {}
+
+    def resolve(l, depth=0):
+        if depth > 6 or l <= B.arg_count or ndefs.get(l) != 1:
+            return None
+        rv = defs[l]
+        if rv["k"] == "ref":
+            pl = tuple(rv["place"])
+            if all(isinstance(e, str) and re.match(r"\.\w+$", e) for e in pl[1:]) and pl[0] != l:
+                return pl
+            if len(pl) >= 2 and pl[1] == "*" and all(isinstance(e, str) and re.match(r"\.\w+$", e) for e in pl[2:]) and pl[0] != l:
+                inner = resolve(pl[0], depth + 1)          # a reborrow `&mut *r2`
+                if inner is not None:
+                    return tuple(inner) + pl[2:]
+            return None
+        if rv["k"] == "use":
+            src = rv["op"].get("m") or rv["op"].get("c")
+            if src is not None and len(src) == 1:
+                return resolve(src[0], depth + 1)
+        return None
+    for l, d in enumerate(B.locals):
+        if str(d.get("ty", "")).startswith("&"):
+            pl = resolve(l)
+            if pl is not None:
+                target[l] = pl
+    if not target:
+        return 0
+    n = [0]
+
+    def mp(pl):
+        if pl and pl[0] in target and len(pl) >= 2 and pl[1] == "*":
+            n[0] += 1
+            return tuple(target[pl[0]]) + tuple(pl[2:])
+        return pl
+
+    def mo(o):
+        if "c" in o:
+            return {"c": mp(tuple(o["c"]))}
+        if "m" in o:
+            q = mp(tuple(o["m"]))
+            return {"m": q} if q == tuple(o["m"]) else {"c": q}     # moving out of *r is a read of x
+        return o
+    for blk in B.blocks:
+        out = []
+        for st in blk["stmts"]:
+            ns = dict(st)
+            ns["p"] = mp(tuple(st["p"]))
+            rv = st.get("rv")
+            if rv is not None:
+                r2 = dict(rv)
+                k = rv["k"]
+                if k in ("use", "repeat", "cast"):
+                    r2["op"] = mo(rv["op"])
+                elif k in ("ref", "rawptr", "discr"):
+                    r2["place"] = mp(tuple(rv["place"]))
+                elif k == "bin":
+                    r2["a"], r2["b"] = mo(rv["a"]), mo(rv["b"])
+                elif k == "un":
+                    r2["a"] = mo(rv["a"])
+                elif k == "agg":
+                    r2["ops"] = [mo(o) for o in rv["ops"]]
+                ns["rv"] = r2
+            out.append(ns)
+        blk["stmts"] = out
+        t = blk["term"]
+        if t is None:
+            continue
+        t = dict(t)
+        k = t["k"]
+        if k == "call":
+            t["args"] = [mo(a) for a in t["args"]]
+            t["dest"] = mp(tuple(t["dest"]))
+        elif k == "switch":
+            t["discr"] = mo(t["discr"])
+        elif k == "assert":
+            t["cond"] = mo(t["cond"])
+            t["ops"] = [mo(a) for a in t["ops"]]
+        elif k == "drop":
+            t["place"] = mp(tuple(t["place"]))
+        blk["term"] = t
+    if n[0]:
+        B._names = None
+        B._cfg = None
+        B._defs = None
+    return n[0]
+
+
 def select_to_minmax(B):
     """`if a < b { t = b } else { t = a }` (any of < <= > >=, either arm order) is `t = max(a, b)` resp. `min`: a clamp written with
     comparisons reads like one written with std::cmp::min / max.  Only for totally ordered types, where the two agree on every value."""
@@ -944,6 +1047,10 @@ def inline_program(P):
         for fid in list(bodies):
             if fid not in changed and len(bodies[fid].blocks) < 900:
                 changed[fid] = _clone_body(bodies[fid])
+    for fid, B in changed.items():
+        k = forward_refs(B)
+        if k:
+            log.append("%s: %d access(es) through a forwarded reference" % (fid, k))
     for fid, B in changed.items():
         k = select_to_minmax(B)
         if k:
